@@ -6,8 +6,8 @@ import os
 VERIF = os.path.normpath(os.path.join(os.path.dirname(os.path.abspath(__file__)), ".."))
 
 NOTE_COMMON = ("Trusted base: Lean 4.33 kernel (axioms propext, Classical.choice, Quot.sound only; no sorry/native_decide/bv_decide); "
-               "harness/extract.py regenerates all tables/constants/literals from /repo on every run and harness/pytrans.py translates 33 "
-               "function bodies (incl. the state-machine core of HdlcFrameReader), proved equal to the model (Props/*Gen*.lean); the rest of the hand-written control-flow model is tied to the "
+               "harness/extract.py regenerates all tables/constants/literals from /repo on every run and harness/pytrans.py translates 38 "
+               "function bodies (incl. the state-machine core of HdlcFrameReader, the AutoDecoder rotation and the protocols' reader selection), proved equal to the model (Props/*Gen*.lean); the rest of the hand-written control-flow model is tied to the "
                "Python code by a differential correspondence check (sampled, not proved). ")
 
 CHECKS = {
@@ -87,13 +87,15 @@ CHECKS["C13"] = dict(
          "payload_queue_exact - exactly the non-empty payloads of its valid messages, in order, no loss, no duplication, nothing from "
          "invalid messages or other candidates; selected_is_first_valid - the selected reader is the first candidate (list order) in the "
          "earliest chunk with a valid message; single_candidate. All by induction over the chunk sequence against a specification stated on "
-         "each candidate's OWN message stream. Correspondence: real SmartMeterMessageProtocol / SmartMeterMessagePayloadProtocol with real "
+         "each candidate's OWN message stream. Tie by translation (Props/C13GenProto.lean): gen_dataReceived - data_received and the two "
+         "message_received methods as mechanically translated from the source equal the model step (state up to the erased selection index, "
+         "forwarded items in order). Correspondence: real SmartMeterMessageProtocol / SmartMeterMessagePayloadProtocol with real "
          "readers and asyncio.Queue vs the model instantiated with the HDLC and P1 reader models, on clean/corrupted/mixed streams x "
          "chunkings x 11 candidate lists; the implementation's queue is also compared with the specification computed from separately fed "
          "real readers.",
     note=NOTE_COMMON + "Partial: the clean-stream sentence of the statement needs 'the other candidate reports no valid message before "
          "selection' (an HDLC payload may legally embed a complete P1 readout), so it is checked on generated streams, not proved unconditionally.",
-    technique="Lean 4 proof (generic refinement of data_received to a per-reader specification) + differential correspondence",
+    technique="Lean 4 proof (generic refinement of data_received to a per-reader specification; translated data_received = model step) + differential correspondence",
     design="5/C13")
 CHECKS["C14"] = dict(
     text="Theorems (Props/C14Hdlc.lean, C14P1.lean): the readers are re-modelled with PARTIAL primitives (indexing, seq[-1:][0], assert, "
@@ -224,7 +226,9 @@ CHECKS["C12"] = dict(
          "not read as an APDU date-time followed by a list: predicate noApduStart), p1_decoder_rejects_control/_tag (after fix 74e2123 the P1 "
          "payload decoder rejects every payload starting with the array/structure tag), own_aidon_body_fresh, own_kaifa_body_fresh_wf "
          "(unconditional for the documented Kaifa lists), own_kaifa_obis_body_fresh_wf, own_kamstrup_body_fresh_wf/_version; every remaining "
-         "hypothesis carries a decide-checked witness that it is needed and a non-vacuity example. Correspondence: histories exhaustively to length 2 (3 thorough) over a 14-element pool and randomly to length 30, each "
+         "hypothesis carries a decide-checked witness that it is needed and a non-vacuity example. Tie by translation (Props/C12GenAuto.lean): "
+         "gen_decodePayload - decode_message_payload as mechanically translated from the source equals Auto.step for every decoder list, "
+         "except-clause, remembered index and payload. Correspondence: histories exhaustively to length 2 (3 thorough) over a 14-element pool and randomly to length 30, each "
          "step judged against the seven individual real decoders; own-decoder checks incl. bare bodies; decode_message vs payload.",
     note=NOTE_COMMON + "Partial: for bare Aidon / Kaifa-OBIS / Kamstrup bodies 'own decoder on a fresh AutoDecoder' is proved under the explicit "
          "octet-level hypothesis noApduStart (lists whose first OBIS code makes octets 9.. read as a date-time + list start ARE taken by a frame "
